@@ -793,7 +793,10 @@ pub fn model_reply_script(p: &Payload, id: u64, ok: bool) -> Script {
 
 pub fn custom_exec_answer(sender: &str, tag: u32) -> Resp {
     Resp {
-        events: vec![Event::new("custom").add_attribute("tag", tag.to_string()).add_attribute("sender", sender.to_string())],
+        // a module names its events as it likes (the rules for contract responses do not apply to it): the type rotates
+        // over names that mean something elsewhere — wasmd's generic `message`, `wasm`, `transfer`, a one-letter type,
+        // a padded one — and every one of them surfaces as the module emitted it, in replies and in the final response
+        events: vec![Event::new(["custom", "message", "wasm", "transfer", "m", " spaced ", "reply"][tag as usize % 7]).add_attribute("tag", tag.to_string()).add_attribute("sender", sender.to_string())],
         data: Some(format!("custom-{}", tag).into_bytes()),
     }
 }
